@@ -9,6 +9,7 @@ CONSTANTS
   HostQ <- NoHostQ
   Fuel = 400
   SignExt = TRUE
+  WithBad = FALSE
   Cfg = "ctl"
 INVARIANT Export
 CHECK_DEADLOCK FALSE
